@@ -6,14 +6,16 @@
 //   transform(b, &ENC_TABLE) = L(S(b)),  transform(b, &DEC_TABLE) = L^-1(S^-1(b))     (`spec_transform`)
 // against which every caller is proved.
 //
-// STATUS (end of round, 2026-10-04): discharged: c_transform, c_sub_bytes, c_inv_enc_keys.  c_expand_enc_keys,
-// c_enc_block, c_dec_block timed out (900 s, loaded machine) and are NOT registered; redo them with the transcript oracle
-// (lemmas.rs `tuf`, as compact.c_f / c_expand: 21 s / 11 s instead of > 900 s with Ackermann tables).
+// Composition obligations (c_expand_enc_keys, c_enc_block, c_dec_block, p_enc_par, p_dec_par) replace `transform` and
+// `sub_bytes` by the tagged transcript oracle lemmas.rs `tro` on the real side and the corresponding reference functions
+// by the same oracle on the reference side (linear in the number of calls; the earlier Ackermann-table versions of these
+// harnesses timed out at 900 s).
 // @module file=kuznyechik/src/sse2/backends.rs
 use super::*;
 use crate::__vp_lemmas::{spec_dec_dk, spec_inv_keys};
 use bcref::kuznyechik as kz;
 use crate::__vp_lemmas::ruf;
+use crate::__vp_lemmas::tro;
 
 pub fn bytes(x: __m128i) -> [u8; 16] { unsafe { core::mem::transmute(x) } }
 pub fn word(b: &[u8; 16]) -> __m128i { unsafe { core::mem::transmute(*b) } }
@@ -97,7 +99,8 @@ fn c_sub_bytes() {
     assert!(kz::eq(&bytes(unsafe { sub_bytes(b, &P_INV) }), &kz::s_inv(&bytes(b))));
 }
 
-// ---- uninterpreted stand-ins with the real signatures, for the plumbing obligations in api_sse2.rs
+// ---- uninterpreted stand-ins with the real signatures, for the plumbing obligations (C11, C12, C13, C16) in api_sse2.rs
+// (uf_transform is no longer used: the C04 obligations now replace the block functions, see api_common.inc)
 include!("@VERIF@/contracts/kuznyechik/uf_common.inc");
 pub fn uf_expand_enc_keys(key: &Key) -> RoundKeys { unsafe { core::mem::transmute(ufs::k2rk(&key.0)) } }
 pub fn uf_inv_enc_keys(enc: &RoundKeys) -> RoundKeys {
@@ -107,18 +110,43 @@ pub unsafe fn uf_transform(block: __m128i, table: &Table) -> __m128i {
     word(&ufs::blk(&bytes(block), &[0u8; 16], table as *const Table as usize))
 }
 
+// ---- transcript-oracle stand-ins with the real signatures (see lemmas.rs `tro`): `transform` on the two real tables is
+// LS = L o S resp. LISI = L^-1 o S^-1 of its argument (contract `spec_transform`: c_transform, fused_tables.*, l_l_decomp,
+// l_linv_decomp), `sub_bytes` on the two real S-boxes is S resp. S^-1 (c_sub_bytes)
+pub fn w128(x: __m128i) -> u128 { unsafe { core::mem::transmute(x) } }
+pub fn m128(x: u128) -> __m128i { unsafe { core::mem::transmute(x) } }
+pub unsafe fn tr_transform(block: __m128i, table: &Table) -> __m128i {
+    if core::ptr::eq(table, &ENC_TABLE) {
+        m128(tro::ask(tro::LS, w128(block)))
+    } else {
+        assert!(core::ptr::eq(table, &DEC_TABLE)); // no other table exists in the crate
+        m128(tro::ask(tro::LISI, w128(block)))
+    }
+}
+pub unsafe fn tr_sub_bytes(block: __m128i, sbox: &[u8; 256]) -> __m128i {
+    if core::ptr::eq(sbox, &P) {
+        m128(tro::ask(tro::S, w128(block)))
+    } else {
+        assert!(core::ptr::eq(sbox, &P_INV)); // no other S-box exists in the crate
+        m128(tro::ask(tro::SI, w128(block)))
+    }
+}
+
 // ---- callers of transform, proved against its contract on the two real tables
-// NOT REGISTERED (timeout 900 s in the final run under machine load ~25; to be redone with the transcript oracle as compact.c_f): ob name=c_expand_enc_keys props=C07,C20 fn=kuznyechik::sse2::backends::expand_enc_keys uses=c_transform,c_enc_table_lo,c_enc_table_hi,c_ls_table,l_l_decomp,c_keygen,c_cref_lo,c_cref_hi timeout=900
+// the 32 constants are read from KEYGEN by the real code and from the checked table CREF by the reference; 32 oracle calls
+// @ob name=c_expand_enc_keys props=C07,C20 fn=kuznyechik::sse2::backends::expand_enc_keys uses=c_transform,c_enc_table_lo,c_enc_table_hi,c_ls_table,l_l_decomp,c_keygen,c_cref_lo,c_cref_hi timeout=600
 #[kani::proof]
-#[kani::stub(transform, spec_transform)]
-#[kani::stub(bcref::kuznyechik::l, ruf::l)]
-#[kani::stub(bcref::kuznyechik::l_inv, ruf::l_inv)]
+#[kani::stub(transform, tr_transform)]
+#[kani::stub(bcref::kuznyechik::lsx, tro::lsx)]
 #[kani::stub(bcref::kuznyechik::c, crate::utils::__vp_utils::cref_lookup)]
-#[kani::unwind(151)]
+#[kani::unwind(33)]
 fn c_expand_enc_keys() {
     let key: [u8; 32] = kani::any();
     let rk = raw_keys(&expand_enc_keys(&cipher::Array(key)));
+    assert!(tro::recorded() == 32);
+    tro::start_replay();
     let spec = kz::key_schedule(&key);
+    assert!(tro::all_replayed());
     let mut i = 0;
     while i < 10 {
         assert!(kz::eq(&rk[i], &spec[i]));
@@ -159,33 +187,124 @@ pub fn dec_block(rk: &RoundKeys, b: [u8; 16]) -> [u8; 16] {
 }
 
 // for every value of the ten round keys and every block
-// NOT REGISTERED (timeout 900 s in the final run under machine load ~25; to be redone with the transcript oracle as compact.c_f): ob name=c_enc_block props=C07,C20 fn=kuznyechik::sse2::backends::EncBackend::encrypt_block uses=c_transform,c_enc_table_lo,c_enc_table_hi,c_ls_table,l_l_decomp timeout=900
+// @ob name=c_enc_block props=C07,C20 fn=kuznyechik::sse2::backends::EncBackend::encrypt_block uses=c_transform,c_enc_table_lo,c_enc_table_hi,c_ls_table,l_l_decomp timeout=600
 #[kani::proof]
-#[kani::stub(transform, spec_transform)]
-#[kani::stub(bcref::kuznyechik::l, ruf::l)]
-#[kani::stub(bcref::kuznyechik::l_inv, ruf::l_inv)]
-#[kani::stub(bcref::kuznyechik::c, crate::utils::__vp_utils::cref_lookup)]
-#[kani::unwind(151)]
+#[kani::stub(transform, tr_transform)]
+#[kani::stub(bcref::kuznyechik::lsx, tro::lsx)]
+#[kani::unwind(17)]
 fn c_enc_block() {
     let rk = any_round_keys();
     let b: [u8; 16] = kani::any();
-    assert!(kz::eq(&enc_block(&rk, b), &kz::encrypt_with(&raw_keys(&rk), &b)));
+    let real = enc_block(&rk, b);
+    assert!(tro::recorded() == 9);
+    tro::start_replay();
+    let spec = kz::encrypt_with(&raw_keys(&rk), &b);
+    assert!(tro::all_replayed());
+    assert!(kz::eq(&real, &spec));
 }
 
 // for every value of the ten decryption words (with dk = spec_inv_keys(K) this is the standard's D under K:
-// lemmas.l_dec_dk_is_standard)
-// NOT REGISTERED (timeout 900 s in the final run under machine load ~25; to be redone with the transcript oracle as compact.c_f): ob name=c_dec_block props=C07,C20 fn=kuznyechik::sse2::backends::DecBackend::decrypt_block uses=c_transform,c_dec_table_lo,c_dec_table_hi,c_slinv_table,l_linv_decomp,c_sub_bytes timeout=900
+// lemmas.l_dec_dk_is_standard).  The first stage uses S^-1(S(x)) = x (lemmas.l_s_inverse), see `tro::sd_first`.
+// @ob name=c_dec_block props=C07,C20 fn=kuznyechik::sse2::backends::DecBackend::decrypt_block uses=c_transform,c_dec_table_lo,c_dec_table_hi,c_slinv_table,l_linv_decomp,c_sub_bytes,l_s_inverse timeout=600
 #[kani::proof]
-#[kani::stub(transform, spec_transform)]
-#[kani::stub(bcref::kuznyechik::l, ruf::l)]
-#[kani::stub(bcref::kuznyechik::l_inv, ruf::l_inv)]
-#[kani::stub(bcref::kuznyechik::c, crate::utils::__vp_utils::cref_lookup)]
-#[kani::unwind(151)]
+#[kani::stub(transform, tr_transform)]
+#[kani::stub(sub_bytes, tr_sub_bytes)]
+#[kani::stub(crate::__vp_lemmas::sd_first, tro::sd_first)]
+#[kani::stub(crate::__vp_lemmas::sd_round, tro::sd_round)]
+#[kani::stub(crate::__vp_lemmas::sd_last, tro::sd_last)]
+#[kani::unwind(17)]
 fn c_dec_block() {
     let dk = any_round_keys();
     let b: [u8; 16] = kani::any();
-    assert!(kz::eq(&dec_block(&dk, b), &spec_dec_dk(&raw_keys(&dk), &b)));
+    let real = dec_block(&dk, b);
+    assert!(tro::recorded() == 11);
+    tro::start_replay();
+    let spec = spec_dec_dk(&raw_keys(&dk), &b);
+    assert!(tro::all_replayed());
+    assert!(kz::eq(&real, &spec));
 }
+
+// ---- encrypt_par_blocks / decrypt_par_blocks (C04): for every value of the ten round keys and every four blocks, output
+// lane j is what the single-block function returns on input lane j - buffer to buffer (input unchanged, guard blocks
+// around the output untouched) and in place - for EVERY transform / sub_bytes (transcript oracle: the four single-block
+// calls are recorded, the parallel function, which interleaves the lanes, must ask exactly the same questions; SCHED
+// names which).  The keys are not written.
+pub type Par = ParBlocks<EncBackend<'static>>;
+pub fn par4(b: &[[u8; 16]; 4]) -> Par { cipher::Array([cipher::Array(b[0]), cipher::Array(b[1]), cipher::Array(b[2]), cipher::Array(b[3])]) }
+macro_rules! par_blocks { ($name:ident, $single:ident, $backend:ident, $tr:ident, $par:ident, $calls:expr, $sched:expr) => {
+    #[kani::proof]
+    #[kani::stub(transform, tr_transform)]
+    #[kani::stub(sub_bytes, tr_sub_bytes)]
+    #[kani::unwind(65)]
+    fn $name() {
+        let rk = any_round_keys();
+        let rk0 = raw_keys(&rk);
+        let (b0, b1, b2, b3): ([u8; 16], [u8; 16], [u8; 16], [u8; 16]) = (kani::any(), kani::any(), kani::any(), kani::any());
+        let inp = [b0, b1, b2, b3];
+        // recorded: lane j alone, calls $calls * j .. $calls * (j + 1)
+        let mut single = [[0u8; 16]; 4];
+        let mut j = 0;
+        while j < 4 {
+            single[j] = $single(&rk, inp[j]);
+            j += 1;
+        }
+        assert!(tro::recorded() == 4 * $calls);
+        let mut p = 0;
+        while p < 4 * $calls {
+            let (lane, step): (usize, usize) = $sched(p);
+            tro::sched(p, $calls * lane + step);
+            p += 1;
+        }
+        // buffer to buffer
+        tro::start_replay();
+        let src = par4(&inp);
+        let g: [u8; 16] = kani::any();
+        let mut dst = [cipher::Array(g); 6];
+        {
+            let out: &mut Par = (&mut dst[1..5]).try_into().unwrap();
+            cipher::$tr::$par(&$backend(&rk), InOut::from((&src, out)));
+        }
+        assert!(tro::all_replayed());
+        assert!(kz::eq(&dst[0].0, &g) && kz::eq(&dst[5].0, &g));
+        let mut j = 0;
+        while j < 4 {
+            assert!(kz::eq(&dst[1 + j].0, &single[j]));
+            assert!(kz::eq(&src.0[j].0, &inp[j]));
+            j += 1;
+        }
+        // in place
+        tro::start_replay();
+        let mut buf = [cipher::Array(g), cipher::Array(b0), cipher::Array(b1), cipher::Array(b2), cipher::Array(b3), cipher::Array(g)];
+        {
+            let io: &mut Par = (&mut buf[1..5]).try_into().unwrap();
+            cipher::$tr::$par(&$backend(&rk), InOut::from(io));
+        }
+        assert!(tro::all_replayed());
+        assert!(kz::eq(&buf[0].0, &g) && kz::eq(&buf[5].0, &g));
+        let mut j = 0;
+        while j < 4 {
+            assert!(kz::eq(&buf[1 + j].0, &single[j]));
+            j += 1;
+        }
+        // keys not written
+        let rk1 = raw_keys(&rk);
+        let mut i = 0;
+        while i < 10 {
+            assert!(kz::eq(&rk0[i], &rk1[i]));
+            i += 1;
+        }
+    }
+}; }
+// encryption: single = 9 x LS; parallel call p = 4 * round + lane
+fn sched_enc(p: usize) -> (usize, usize) { (p % 4, p / 4) }
+// decryption: single = S, LISI, 8 x LISI, SI (11 calls); parallel: (S, LISI) per lane, then 8 rounds x 4 lanes, then SI per lane
+fn sched_dec(p: usize) -> (usize, usize) {
+    if p < 8 { (p / 2, p % 2) } else if p < 40 { ((p - 8) % 4, 2 + (p - 8) / 4) } else { (p - 40, 10) }
+}
+// @ob name=p_enc_par props=C04,C20 fn=kuznyechik::sse2::backends::EncBackend::encrypt_par_blocks,kuznyechik::sse2::backends::EncBackend::encrypt_block uses=c_transform timeout=600
+par_blocks!(p_enc_par, enc_block, EncBackend, BlockCipherEncBackend, encrypt_par_blocks, 9, sched_enc);
+// @ob name=p_dec_par props=C04,C20 fn=kuznyechik::sse2::backends::DecBackend::decrypt_par_blocks,kuznyechik::sse2::backends::DecBackend::decrypt_block uses=c_transform,c_sub_bytes timeout=600
+par_blocks!(p_dec_par, dec_block, DecBackend, BlockCipherDecBackend, decrypt_par_blocks, 11, sched_dec);
 
 // ---- contracts of key expansion / inversion as spec functions with the real signatures (stubs for api_*.rs)
 pub fn spec_expand_enc_keys(key: &Key) -> RoundKeys { unsafe { core::mem::transmute(kz::key_schedule(&key.0)) } }
